@@ -1,0 +1,18 @@
+//go:build verif
+
+package nfs
+
+import (
+	"github.com/mit-pdos/go-nfsd/fstxn"
+	"github.com/mit-pdos/go-nfsd/shrinker"
+)
+
+// VerifFsState exposes the file-system state to external monitors.
+func (nfs *Nfs) VerifFsState() *fstxn.FsState {
+	return nfs.fsstate
+}
+
+// VerifShrinker exposes the shrinker state to external monitors.
+func (nfs *Nfs) VerifShrinker() *shrinker.ShrinkerSt {
+	return nfs.shrinkst
+}
